@@ -208,6 +208,17 @@ func allegWitnesses() []witness {
 		return ""
 	}, []wBlock{
 		{}, {}, {Txs: txs(wAllege(0, 3, ""), wVote(0, "", 1), wVote(1, "", 1), wVote(2, "", 1))}, {}})
+	// (d2f2af2) two allegations against one validator in ONE block: the duplicate check sees the first
+	// (IterateRequests used to walk committed keys only, and CleanTracker deleted the second at the
+	// block end, votes and all); an unstake of the accused in the same block is refused as well
+	mk("second-allegation-in-one-block", 4, nil, func(x *allegRun) string {
+		q := x.cst.Reqs["w9a"]
+		if q == nil || len(q.Votes) != 1 || x.cst.Reqs["w9b"] != nil || x.cst.Total[addr(x, 3)] == nil || x.cst.Total[addr(x, 3)].Int64() != 10 {
+			return fmt.Sprintf("first request %+v, second request %+v, stake of the accused %v (expected: first open with one vote, second refused, stake untouched 10)", q, x.cst.Reqs["w9b"], x.cst.Total[addr(x, 3)])
+		}
+		return ""
+	}, []wBlock{
+		{}, {}, {Txs: txs(wAllege(0, 3, "w9a"), wAllege(1, 3, "w9b"), wVote(2, "w9b", 1), wVote(2, "w9a", 1), wUnstake(3, 2))}, {}})
 	// control: a plain conviction, early release attempts, release after the day has passed (must stay silent)
 	mk("control-conviction-and-release", 5, func(p *Params, eo *evidence.Options) { p.ReleaseTimeDays = 1 }, func(x *allegRun) string {
 		if x.cst.isFrozen(addr(x, 4)) {
